@@ -68,6 +68,30 @@ func ReactScenarios() []History {
 	)
 	add("module-reaches-for-contexts-it-may-not-touch", smallParams(), map[string]int64{"c1": 400, "c2": 200}, ops...)
 
+	// several contexts of one consumer due in the same block; the expensive ones cannot be paid, and their
+	// module answers the state callback by lowering the cap of a cheap sibling below its provider's price:
+	// a sibling that comes later in that block is judged against its new cap (skipped), one that came
+	// earlier has been served.  Likewise at the expiry: a context killed by a sibling's response callback
+	// earlier in the same block is removed when its own expiry comes.  (Three pairs in both orders of
+	// creation: the order within a block is the order of the context ids, which are hashes.)
+	cheap := []string{"p2"}
+	ops = registry(map[string]int64{"p1": 9, "p2": 3})
+	ops = append(ops,
+		mod("c2", cheap, 2, 2, 3, 1, "", "", 0),         // 1 cheap
+		mod("c2", both, 2, 2, 3, 1, "kill", "cap1", 1),  // 2 expensive: re-caps / kills 1
+		mod("c2", both, 2, 2, 3, 1, "kill", "cap1", 4),  // 3 expensive: re-caps / kills 4
+		mod("c2", cheap, 2, 2, 3, 1, "", "", 0),         // 4 cheap
+		mod("c2", cheap, 2, 2, 3, 1, "", "", 0),         // 5 cheap
+		mod("c2", both, 2, 2, 3, 1, "pause", "cap1", 5), // 6 expensive: re-caps / pauses 5
+		eb(1), // c2 holds 20: not enough for all the expensive ones (12 each)
+		Ev{Name: "Obs"},
+		Ev{Name: "BankSend", Signer: "o2", To: "c2", Amount: 400},
+		Ev{Name: "ModStart", Signer: "c2", ID: 2}, Ev{Name: "ModStart", Signer: "c2", ID: 3}, Ev{Name: "ModStart", Signer: "c2", ID: 6},
+		eb(1), eb(1), // height 3: the cheap ones expire; the expensive ones (started at 2) expire at 4 and kill / pause them
+		eb(1), eb(1), eb(1), eb(1),
+	)
+	add("siblings-due-in-one-block", smallParams(), map[string]int64{"c2": 20}, ops...)
+
 	return hs
 }
 
